@@ -189,7 +189,20 @@ class SimNcp:
         if fid not in by_id:
             return
         name, (cid, tx, rx) = by_id[fid]
-        body = self.default_payload(rx, value=(b"\x03" if name == "getValue" else None))
+        # the configuration commands of bring-up are answered from the EZSP reference, NOT from the library's tables (which
+        # would change together with the host): the status is one byte before protocol version 14 and the 32-bit unified
+        # status from 14 on; success is 0 in every family
+        st = bytes(4 if self.version >= 14 else 1)
+        wire = {0x0052: st + (0).to_bytes(2, "little"),      # getConfigurationValue: status, uint16 value
+                0x0053: st,                                   # setConfigurationValue: status
+                0x00AA: st + bytes([1, 3]),                   # getValue: status, length-prefixed value
+                0x00AB: st,                                   # setValue: status
+                0x0055: st,                                   # setPolicy: status
+                0x0002: st}                                   # addEndpoint: status
+        if fid in wire:
+            body = wire[fid]
+        else:
+            body = self.default_payload(rx, value=(b"\x03" if name == "getValue" else None))
         self.queue.append(self.header(fmt, seq, fid) + body)
 
     @staticmethod
